@@ -17,7 +17,7 @@ import time
 from sim import env, kernel
 from sim.harness import Check, Violation
 
-from frappy.lib.statemachine import Finish, Retry, StateMachine
+from frappy.lib.statemachine import Finish, Retry, StateMachine, Stop
 from frappy.core import BUSY, IDLE, Drivable, FloatRange, Parameter
 from frappy.states import HasStates, status_code
 from sim import nodeworld
@@ -40,7 +40,7 @@ class C14(Check):
                    'liveness (machine inactive after the last stop / last requested state entered with its attributes) is '
                    'judged after 4 + (length of the longest generated cleanup chain) further cycles; generated cleanup '
                    'chains retry a bounded number of times']
-    PROBES = ('c14.module-world', 'c14.stop-during-stop-cleanup', 'c14.interrupt-while-active', 'c14.cleanup-chain', 'c14.restart-during-cleanup', 'c14.stop-during-cleanup',
+    PROBES = ('c14.module-world', 'c14.run-ends-with-start-waiting', 'c14.run-finishes-with-start-waiting', 'c14.stop-during-stop-cleanup', 'c14.interrupt-while-active', 'c14.cleanup-chain', 'c14.restart-during-cleanup', 'c14.stop-during-cleanup',
               'c14.loop-limit', 'c14.error-in-state', 'c14.error-in-cleanup', 'c14.two-commands-before-cycle')
 
     def gen_case(self, rng, tier):
@@ -89,7 +89,7 @@ class C14(Check):
             shape['line_gaps'] = rng.choice([0, 0, 10])
             shape['plan'] = {'a_retries': rng.randrange(0, 4), 'b_retries': rng.randrange(0, 4),
                              'a_fails': rng.random() < 0.15, 'stop_chain': rng.randrange(0, 3), 'a_decorated': rng.random() < 0.6,
-                             'stop_decorated': rng.random() < 0.6,
+                             'stop_decorated': rng.random() < 0.6, 'finish_time': rng.choice([0, 0, 0.3, 0.8]),
                              'pollinterval': rng.choice([0.2, 1.0])}
             ops = []
             for _ in range(rng.randrange(1, 7)):
@@ -133,6 +133,16 @@ class C14(Check):
             if not sim.finished:
                 ev.append((sim.next_seq(), time.time()) + e)
 
+        seen_active = []
+        nruns = [0]
+
+        class SpySM(StateMachine):
+            @property
+            def is_active(self):
+                v = StateMachine.is_active.fget(self)
+                seen_active.append((threading.current_thread().name, v))
+                return v
+
         class SMod(HasStates, Drivable):
             value = Parameter('v', FloatRange(), default=0)
 
@@ -148,6 +158,7 @@ class C14(Check):
                 if sm.init:
                     sm.count = 0
                     rec('run-begin')
+                    nruns[0] += 1
                 sim.yield_point()
                 sm.count += 1
                 if plan['a_fails'] and sm.count > plan['a_retries']:
@@ -171,6 +182,9 @@ class C14(Check):
                     return Retry
                 self.value = sm.goal
                 rec('finishing', 'reached')
+                if plan.get('finish_time'):
+                    # the last call takes its time (the hardware confirms slowly): requests arrive meanwhile
+                    time.sleep(plan['finish_time'])
                 return self.final_status(IDLE, 'reached')
 
             def on_stop(self, sm):
@@ -190,16 +204,33 @@ class C14(Check):
                 # else: a cleanup state without attached status (it does not change the status, as documented)
                 state_stopping = status_code(BUSY, 'braking')(state_stopping)
 
+            def state_transition(self, sm, newstate):
+                nt = sm.next_task
+                super().state_transition(sm, newstate)
+                if newstate is None:
+                    # the run ends; was a start waiting all the time while the status was worked out?
+                    st = tuple(sm.status)
+                    rec('to-idle', type(nt).__name__, sm.next_task is nt, (int(st[0]), st[1]),
+                        type(sm.cleanup_reason).__name__)
+
             def stop_machine(self, *args, **kwds):
                 sm = self._state_machine
-                rec('stop-req', bool(sm.is_active), type(sm.cleanup_reason).__name__)
+                if not isinstance(sm, SpySM):
+                    sm.__class__ = SpySM
+                rec('stop-req', bool(StateMachine.is_active.fget(sm)), type(sm.cleanup_reason).__name__)
+                me = threading.current_thread().name
+                n0 = len(seen_active)
                 super().stop_machine(*args, **kwds)
-                rec('stop-done')
+                # what stop_machine itself saw when it tested whether the machine is running
+                mine = [v for (t, v) in seen_active[n0:] if t == me]
+                rec('stop-done', mine[0] if mine else None, isinstance(sm.next_task, Stop))
 
             def doPoll(self):
                 was = self._state_machine.is_active
+                r0 = nruns[0]
                 super().doPoll()
-                if was and not self._state_machine.is_active:
+                # (a run may begin and end within one call)
+                if (was or nruns[0] > r0) and not self._state_machine.is_active:
                     rec('inactive', tuple(self._state_machine.status))
         ctx['cleanup'] = [lambda: env.forget_classes(SMod)]
         srv = world.make_server('n', {'m': {'cls': SMod, 'description': 'state machine module',
@@ -300,6 +331,18 @@ class C14(Check):
                                      f'the stop cleanup of the run began, but later the run reached its goal: '
                                      f'{[x[2:4] for x in ev][-8:]}'))
                 return res
+        # busy from the start request on: a run which ends while a start is waiting hands over with a busy status
+        for e in ev:
+            if e[2] == 'to-idle' and e[3] == 'Start' and e[4]:
+                sim.counters['c14.run-ends-with-start-waiting'] = sim.counters.get('c14.run-ends-with-start-waiting', 0) + 1
+                if e[6] == 'NoneType':
+                    sim.counters['c14.run-finishes-with-start-waiting'] = sim.counters.get('c14.run-finishes-with-start-waiting', 0) + 1
+                if not 300 <= e[5][0] < 400:
+                    res.append(Violation('C14.status-not-busy', 'start-waiting',
+                                         f'a run ended while the next start was waiting (requested and acknowledged before), '
+                                         f'and the module published {e[5]} before it went busy again: '
+                                         f'{[x[2:6] for x in ev][-8:]}'))
+                    return res
         # the most recent request wins: a stop accepted by a running machine (also one which is in its stop cleanup
         # already, with a new start waiting) is not followed by a complete run unless a new start was requested
         sreq = [e for e in ev if e[2] == 'stop-req' and e[3]]
@@ -311,7 +354,11 @@ class C14(Check):
                     sim.counters['c14.stop-during-stop-cleanup'] = sim.counters.get('c14.stop-during-stop-cleanup', 0) + 1
                 begun = next((e for e in ev if e[2] == 'run-begin' and e[0] > done[0]), None)
                 if begun is not None and any(e[2] == 'finishing' and e[3] == 'reached' and e[0] > begun[0] for e in ev):
-                    res.append(Violation('C14.stop-ignored', 'run-after-last-stop',
+                    # why?  stop_machine found the machine inactive (it was between the end of the cleanup and the
+                    # pick-up of the waiting start: the test is not synchronised with the cycling thread), or it saw
+                    # it running and did not post the stop, or the posted stop got lost
+                    why = 'inactive-at-test' if done[3] is False else 'seen-active'
+                    res.append(Violation('C14.stop-ignored', f'run-after-last-stop|{why}',
                                          f'the last request was a stop (machine active, cleanup reason {last[4]}), but '
                                          f'afterwards a run began and reached its goal: {[x[2:5] for x in ev][-10:]}'))
                     return res
